@@ -201,6 +201,10 @@ _CMP = {ast.Eq: O.eq, ast.NotEq: O.ne, ast.Gt: O.gt, ast.GtE: O.ge, ast.Lt: O.lt
         ast.Is: lambda a, b: a is b, ast.IsNot: lambda a, b: a is not b}
 
 
+_STR_METHODS = {'replace', 'strip', 'rstrip', 'lstrip', 'upper', 'lower', 'startswith', 'endswith', 'isdigit', 'count',
+                'find', 'split', 'join', 'zfill'}
+
+
 def ev(e, env, funcs=None):
     """evaluate a closed pure expression under `env` (name or access-path -> value).
     Supports arithmetic, comparisons, boolean operators, len(), int(), slicing/indexing of
@@ -289,6 +293,13 @@ def ev(e, env, funcs=None):
             args = [ev(a, env, funcs) for a in e.args]
             kw = {k.arg: ev(k.value, env, funcs) for k in e.keywords}
             return e.func.value.value.format(*args, **kw)
+        if isinstance(e.func, ast.Attribute) and e.func.attr in _STR_METHODS and not e.keywords:
+            try:
+                recv = ev(e.func.value, env, funcs)
+            except NotClosed:
+                recv = None
+            if isinstance(recv, str):
+                return getattr(recv, e.func.attr)(*[ev(a, env, funcs) for a in e.args])
         if funcs:
             r, m = call_target(e)
             key = (r + '.' + m) if r else m
